@@ -18,39 +18,73 @@ import (
 
 func TestGovcReplay(t *testing.T) {
 	m := govcModel()
-	lit := m.Values["literal"]
-	fmt.Printf("REPLAY-INPUT: literal %q (%s)\n", lit, m.Function)
+	lits := []string{}
+	if l, ok := m.Values["literal"]; ok && l != "" {
+		lits = append(lits, l)
+	} else {
+		// function obligations: the token the model's buffer spells, then a fixed corpus of near-numbers
+		for _, name := range []string{"b", "buf", "src"} {
+			b := m.Bytes(name, '0', 40)
+			c := int(m.Int("cursor", 0))
+			if c < 0 || c > len(b) {
+				c = 0
+			}
+			b = b[c:]
+			if i := bytes.IndexByte(b, 0); i >= 0 {
+				b = b[:i]
+			}
+			if len(b) > 0 {
+				lits = append(lits, string(b))
+			}
+		}
+		lits = append(lits, "01", "00", "1.", "-.5", "0.e1", ".5", "1e", "-", "1.e2", "-01", "1e+", "+1")
+	}
+	fmt.Printf("REPLAY-INPUT: literals %q (%s)\n", lits, m.Function)
+	for _, lit := range lits {
+		if govcNumberReplay(m.Function, lit) {
+			fmt.Printf("REPLAY-CONFIRMED: %q is accepted by go-json but is not an RFC 8259 number\n", lit)
+			return
+		}
+	}
+	fmt.Println("REPLAY-NOT-REPRODUCED")
+}
+
+func govcNumberReplay(function, lit string) bool {
 	doc := []byte(lit)
 	bad := false
-	if strings.Contains(m.Function, "AppendNumber") {
+	if strings.Contains(function, "AppendNumber") || strings.Contains(function, "isValidNumber(") || strings.HasSuffix(function, "isValidNumber") {
 		out, err := Marshal(Number(lit))
 		fmt.Printf("REPLAY-RESULT: Marshal(json.Number(%q)) = %q, %v; valid JSON per encoding/json: %v\n", lit, out, err, stdjson.Valid(out))
 		if err == nil && !stdjson.Valid(out) {
 			bad = true
 		}
-	} else if strings.Contains(m.Function, "compactNumber") {
+	} else if strings.Contains(function, "compactNumber") {
 		var b1, b2 bytes.Buffer
 		e1 := Compact(&b1, doc)
 		e2 := stdjson.Compact(&b2, doc)
-		fmt.Printf("REPLAY-RESULT: Compact go-json err=%v, encoding/json err=%v\n", e1, e2)
-		if (e1 == nil) != (e2 == nil) {
+		fmt.Printf("REPLAY-RESULT: Compact(%q) go-json err=%v, encoding/json err=%v\n", lit, e1, e2)
+		if e1 == nil && e2 != nil {
 			bad = true
 		}
 	} else {
 		var a, b interface{}
 		var f1, f2 float64
+		var n1 Number
+		var n2 stdjson.Number
 		e1, e2 := Unmarshal(doc, &a), stdjson.Unmarshal(doc, &b)
 		e3, e4 := Unmarshal(doc, &f1), stdjson.Unmarshal(doc, &f2)
-		fmt.Printf("REPLAY-RESULT: Valid go=%v std=%v; interface{} go err=%v std err=%v; float64 go err=%v std err=%v\n", Valid(doc), stdjson.Valid(doc), e1, e2, e3, e4)
-		if Valid(doc) != stdjson.Valid(doc) || (e1 == nil) != (e2 == nil) || (e3 == nil) != (e4 == nil) {
+		e5, e6 := Unmarshal(doc, &n1), stdjson.Unmarshal(doc, &n2)
+		// a number in a member the destination ignores
+		wrapped := []byte(`{"zz":` + lit + `}`)
+		var s1, s2 struct{ A int }
+		e7, e8 := Unmarshal(wrapped, &s1), stdjson.Unmarshal(wrapped, &s2)
+		fmt.Printf("REPLAY-RESULT: %q Valid go=%v std=%v; interface{} go err=%v std err=%v; float64 go err=%v std err=%v; Number go err=%v std err=%v; ignored member go err=%v std err=%v\n",
+			lit, Valid(doc), stdjson.Valid(doc), e1, e2, e3, e4, e5, e6, e7, e8)
+		if (Valid(doc) && !stdjson.Valid(doc)) || (e1 == nil && e2 != nil) || (e3 == nil && e4 != nil) || (e5 == nil && e6 != nil) || (e7 == nil && e8 != nil) {
 			bad = true
 		}
 	}
-	if bad {
-		fmt.Printf("REPLAY-CONFIRMED: %q is accepted by go-json but is not an RFC 8259 number\n", lit)
-		return
-	}
-	fmt.Println("REPLAY-NOT-REPRODUCED")
+	return bad
 }
 
 var _ = json.Marshal
